@@ -332,7 +332,8 @@ pub fn hostile_sequence(rng: &mut Rng) -> Vec<u8> {
                 push_str(&mut o, &n(rng));
                 o.push(b';');
             }
-            match rng.below(5) {
+            match rng.below(8) {
+                5..=7 => push_str(&mut o, &hostile_color(rng)),
                 0 => push_str(&mut o, "rgb:ff/00/7"),
                 1 => push_str(&mut o, "rgb:ffff/0000/12345"),
                 2 => push_str(&mut o, "#12345"),
@@ -409,6 +410,78 @@ pub fn hostile_sequence(rng: &mut Rng) -> Vec<u8> {
     o
 }
 
+/// A run of hex digits of awkward length / content (sign, leading zeros, overflow, non-hex)
+pub fn hostile_hex(rng: &mut Rng) -> String {
+    let len = match rng.below(8) {
+        0 => 0,
+        1..=3 => rng.range(1, 4),
+        4 => rng.range(5, 9),
+        5 => *rng.pick(&[15usize, 16, 17, 18, 19, 20, 31, 32, 33]),
+        _ => rng.range(1, 40),
+    };
+    let mut digits: String = match rng.below(6) {
+        0 => "0".repeat(len),
+        1 => "f".repeat(len),
+        2 => {
+            // leading zeros then a short value
+            let tail = rng.range(0, 4).min(len);
+            let mut d = "0".repeat(len - tail);
+            for _ in 0..tail {
+                d.push(char::from_digit(rng.below(16) as u32, 16).unwrap());
+            }
+            d
+        }
+        _ => (0..len).map(|_| char::from_digit(rng.below(16) as u32, 16).unwrap()).collect(),
+    };
+    if rng.chance(1, 4) {
+        digits = digits.to_uppercase();
+    }
+    match rng.below(16) {
+        0 => format!("+{digits}"),
+        1 => format!("-{digits}"),
+        2 => format!("{digits}g"),
+        3 => format!(" {digits}"),
+        _ => digits,
+    }
+}
+
+/// Colour payload of an OSC 4/10/11 reply in every notation, well formed or not
+pub fn hostile_color(rng: &mut Rng) -> String {
+    match rng.below(8) {
+        0..=3 => {
+            let n = match rng.below(8) {
+                0 => 2,
+                1 => 4,
+                _ => 3,
+            };
+            let parts: Vec<String> = (0..n).map(|_| hostile_hex(rng)).collect();
+            format!("{}{}", rng.pick_str(&["rgb:", "rgb:", "rgb:", "rgba:", "rgbi:", "RGB:"]), parts.join("/"))
+        }
+        4 | 5 => format!("#{}", hostile_hex(rng)),
+        6 => rng.pick_str(&["red", "", "#", "rgb:", "rgb://", "rgb:/", "rgb(1,2,3)", "#ggg", "rgb:1/2/3/"]).to_string(),
+        _ => format!("rgb:{:x}/{:x}/{:x}", rng.below(65536), rng.below(65536), rng.below(65536)),
+    }
+}
+
+/// Put zeros in front of one digit run (any numeric field of any sequence becomes 17..40 characters long)
+pub fn stretch_digits(rng: &mut Rng, bytes: &mut Vec<u8>) {
+    let mut starts = Vec::new();
+    for i in 0..bytes.len() {
+        if bytes[i].is_ascii_hexdigit() && (i == 0 || !bytes[i - 1].is_ascii_hexdigit()) {
+            starts.push(i);
+        }
+    }
+    if starts.is_empty() {
+        return;
+    }
+    let at = *rng.pick(&starts);
+    let k = *rng.pick(&[1usize, 3, 14, 15, 16, 17, 18, 19, 20, 36]);
+    let fill = if rng.chance(1, 6) { b'9' } else { b'0' };
+    for _ in 0..k {
+        bytes.insert(at, fill);
+    }
+}
+
 /// A byte stream mixing the three strategies
 pub fn hostile_stream(rng: &mut Rng, max_len: usize) -> Vec<u8> {
     let mut out = Vec::new();
@@ -428,6 +501,9 @@ pub fn hostile_stream(rng: &mut Rng, max_len: usize) -> Vec<u8> {
     }
     if out.len() > max_len.max(8) * 2 {
         out.truncate(max_len.max(8) * 2);
+    }
+    if rng.chance(1, 8) {
+        stretch_digits(rng, &mut out);
     }
     out
 }
